@@ -119,6 +119,11 @@ func genC13Config(t *rapid.T) cfggen.Config {
 			c.Cfg.Secrets[i].Secret.Key = strings.Join(tok[i+1:], sep)
 		}
 	}
+	// one configuration in six has a secret configuration whose shared secret is the empty string (legal:
+	// the keychain hands out what the entry says)
+	if rapid.IntRange(0, 5).Draw(t, "empty_shared_secret") == 0 {
+		c.Cfg.Secrets[rapid.IntRange(0, ns-1).Draw(t, "empty_key_scope")].Secret.Key = ""
+	}
 	nu := rapid.IntRange(1, 5).Draw(t, "nusers")
 	for i := 0; i < nu; i++ {
 		u := cfggen.User{Name: rapid.SampledFrom([]string{"u0", "u1", "u2"}).Draw(t, "uname")}
